@@ -179,6 +179,8 @@ def configurations(tier, rng):
                                      side=(0.9, 1.3, 0.35), anchor=(0.1, -0.7, 3.3))))
     cfgs.append(("turbulence", dict(base, ncell=(8, 8, 8), nsub=(2, 2, 2), periodic=(True, True, True), side=(1., 1., 1.),
                                     extra="  turbulent forcing: true\n" + TURB)))
+    cfgs.append(("turbulence_aniso", dict(base, ncell=(8, 12, 16), nsub=(2, 2, 2), periodic=(True, True, True), side=(1., 1., 1.),
+                                          extra="  turbulent forcing: true\n" + TURB)))
     cfgs.append(("mask", dict(base, ncell=(8, 8, 8), nsub=(2, 2, 2), periodic=(False, False, False), side=(1., 1., 1.),
                               extra="  use mask: true\n" + MASK)))
     if tier != "quick":
